@@ -127,14 +127,19 @@ def compare(a, b, case, tag):
     return exp
 
 
-def check_pair(sp, d):
-    case = {"tree": sp, "diff": d}
+def check_pair(sp, d, siblings=False):
+    case = {"tree": sp, "diff": d, "siblings": siblings}
     Node.store.clear()
-    a = treegen.build(sp)
     sp2 = sp if d is None else apply_diff(sp, d)
     if sp2 is None:
         return None
-    b = treegen.build(sp2)
+    if siblings:
+        # the two trees hang under one parent: they share the parent's namespace dictionary object where equal
+        root = treegen.build({"n": "zzRoot", "ns": {"p": "urn:1", "q": "urn:2"}, "k": [sp, sp2]})
+        a, b = root.children
+    else:
+        a = treegen.build(sp)
+        b = treegen.build(sp2)
     tag = "equal-pair" if d is None else d["kind"]
     exp = compare(a, b, case, tag)
     outside = d is not None and any(i != 0 for i in d["path"]) or (d is not None and d["kind"].startswith("child"))
@@ -212,7 +217,8 @@ def hyp_shard(ctx, shard):
 
     def body(c):
         sp, d = c
-        r = check_pair(sp, d)
+        siblings = treegen.spec_size(sp) % 3 == 0
+        r = check_pair(sp, d, siblings)
         if r is None:
             ctx.note(cls="diff-not-applicable")
             return
@@ -245,7 +251,7 @@ def replay(case):
         if "copy_at" in case:
             check_copy(case["tree"], case["copy_at"], case["side"], case["edit"], case["target"])
         else:
-            check_pair(case["tree"], case.get("diff"))
+            check_pair(case["tree"], case.get("diff"), case.get("siblings", False))
     except Violation as v:
         return f"{v.bucket}: {v.message}"
     return None
